@@ -472,7 +472,9 @@ func (g *Gen) style() *Node {
 	case 1:
 		n.Attrs = append(n.Attrs, g.mkAttr("media", g.r.Pick("all", "screen", "ALL", "screen and (min-width: 1px)", "print, screen")))
 	case 2:
-		n.Attrs = append(n.Attrs, g.boolAttr("amp-boilerplate"))
+		if g.Known { // N09
+			n.Attrs = append(n.Attrs, g.boolAttr("amp-boilerplate"))
+		}
 	case 3:
 		n.Kids = nil
 	}
@@ -1233,7 +1235,7 @@ func (g *Gen) mkAttr(name, logical string) Attr {
 	if g.r.Chance(1, 16) {
 		a.SpEq = true
 	}
-	if g.tmpl && g.r.Chance(1, 10) && q != 0 {
+	if g.tmpl && g.r.Chance(1, 10) && q != 0 && name != "type" && name != "http-equiv" && name != "name" {
 		other := "'"
 		if q == '\'' {
 			other = "\""
@@ -1744,12 +1746,19 @@ func trimNextLeadingSpace(kids []*Node, i int) bool {
 		k := kids[j]
 		switch k.Kind {
 		case KText:
-			t := strings.TrimLeft(k.Text, " \t\n\f\r")
-			if t == "" {
-				k.Text = ""
+			us := units(k.Text)
+			for len(us) > 0 {
+				d := xhtml.UnescapeString(us[0])
+				if d != "" && allWS(d) {
+					us = us[1:]
+					continue
+				}
+				break
+			}
+			k.Text = strings.Join(us, "")
+			if k.Text == "" {
 				continue
 			}
-			k.Text = t
 			return true
 		case KRaw:
 			return true
